@@ -877,7 +877,7 @@ def run_docs(ctx, corr, exe, docs, stream):
                     corr.count("rule_docs_expect_refusal")
                 corr.fail(f"{why} but the answer is "
                           f"{O[0]} instead of a refusal naming line {expect[1]} : {label}", payload,
-                          "GKFparser::finish_*" if len(expect) > 3 and "</" in label + expect[3] + "cov-mat dim" and
+                          "GKFparser::finish_*" if len(expect) > 3 and
                           any(w in expect[3] for w in ("differs", "covariance elements", "cov-mat required")) else "GKFparser::process_*", "\n".join(out[-4:]))
 
 
